@@ -3,9 +3,9 @@
 # the repaired defect must come back as a VIOLATION with its recorded signature.
 cd "$(dirname "$0")/../.."
 ROOT=$(pwd)
-for h in ${@:-cfed176 f914bf1 e0d1353}; do
+for h in ${@:-cfed176 f914bf1 e0d1353 919a3ea}; do
   rm -rf /tmp/work/mut_C11
-  cp -r /tmp/work/repo_snap4 /tmp/work/mut_C11
+  cp -r /tmp/work/repo_snap9 /tmp/work/mut_C11
   (cd /tmp/work/mut_C11 && git -C /repo show $h -- snowfakery | patch -R -p1 -s) || { echo "$h: revert failed"; continue; }
   before=$(ls replays/C11 2>/dev/null | sort)
   echo "=== revert $h: $(git -C /repo log -1 --format=%s $h)"
@@ -24,4 +24,4 @@ PY
   done
 done
 rm -rf /tmp/work/mut_C11
-VERIF_REPO=/tmp/work/repo_snap4 /venv/bin/python -c "import sys; sys.path.insert(0,'.'); from tools import py2lean; py2lean.regenerate(only=['BoundedFuncs'])"
+VERIF_REPO=/tmp/work/repo_snap9 /venv/bin/python -c "import sys; sys.path.insert(0,'.'); from tools import py2lean; py2lean.regenerate(only=['BoundedFuncs'])"
